@@ -1363,7 +1363,7 @@ impl Sim {
                 1
             };
             w.fire_timers();
-            w.log(Op::Poll, id as u32, 0);
+            w.log(Op::Poll, id as u32, w.thread as u32);
             let t = &mut w.tasks[id as usize];
             t.flag.woken.store(false, Ordering::SeqCst);
             (t.fut.take(), t.flag.clone())
